@@ -187,6 +187,13 @@ func mapReduceWithPanicChan(source <-chan any, panicChan *onceChan, mapper Mappe
 		for range output {
 			panic("多次写入聚合器")
 		}
+
+		// output 已关闭：聚合器在结果被取走之后才上报的 panic 也要向调用方重新抛出
+		select {
+		case p := <-panicChan.channel:
+			panic(p)
+		default:
+		}
 	}()
 
 	// collector 用于采集加工的数据，并在聚合器中消费
